@@ -20,11 +20,10 @@ def _range(sc, container_wider):
     if sc.kind == "bcd":
         return 0, 10 ** (b // 4) - 1
     if sc.kind == "enum":
+        # EnumView::CouldWriteValue after f572d62: a full-width field (kBits = width of the enum's
+        # underlying type, the only kind generated here) takes every value of the underlying type,
+        # also inside a wider `bits`
         if sc.enum.signed:
-            if container_wider:
-                # EnumView::CouldWriteValue as it is: the value cast to the unsigned container must be
-                # below 2^kBits, so negative values are refused (known finding)
-                return 0, (1 << (b - 1)) - 1
             return -(1 << (b - 1)), (1 << (b - 1)) - 1
         return 0, (1 << b) - 1
     raise NoShape()
@@ -69,6 +68,12 @@ def struct_shape(st):
         if f.virtual:
             if f.virtual[0] == "alias":
                 tgt = by_name[f.virtual[1]]
+                while tgt.virtual and tgt.virtual[0] == "alias":
+                    tgt = by_name[tgt.virtual[1]]            # alias of an alias
+                if tgt.virtual:
+                    if tgt.virtual[0] == "expr" and tgt.virtual[4]:
+                        raise NoShape()      # alias of a writable `x + k`: codec type not tracked
+                    continue                 # alias of a read-only field: read-only, comment only
                 fields.append((f.name, ftype_shape(tgt.ftype)))
             elif f.virtual[4]:
                 # `x + k`: writable through the inverse; the text codec type of virtual fields is not
